@@ -306,6 +306,10 @@ fn build_rule(named: &str, undef: &str) -> CspRule {
 }
 
 fn gen_rule(rng: &mut Rng) -> (String, String) {
+    // the rule without any directive ("send no header"): with a nonce it still has the four nonce directives
+    if rng.chance(1, 6) {
+        return (list(DIRS.iter().map(|d| format!("{}:-", hex(d.as_bytes())))), "[]".into());
+    }
     let named = list(DIRS.iter().map(|d| {
         let k = if rng.chance(1, 3) { 0 } else { rng.range(1, 3) };
         let vals: Vec<String> = (0..k).map(|_| hex(rng.pick(&VALS).as_bytes())).collect();
@@ -397,7 +401,7 @@ impl Group for Chain {
             .map(|_| {
                 let rules = list((0..rng.range(0, 3)).map(|_| {
                     let (named, undef) = gen_rule(rng);
-                    format!("{}|{named}|{undef}", hex(rng.pick(&["/a/*", "/a/b", "/*", "/n"]).as_bytes()))
+                    format!("{}|{named}|{undef}", hex(rng.pick(&["/a/*", "/a/b", "/*", "/n", "/n*", "/nc"]).as_bytes()))
                 }));
                 format!("c14.chain {} {} {}", rules.replace(' ', ""), hex(b"Srv/1"), b01(rng.chance(1, 2)))
             })
